@@ -23,10 +23,14 @@ BAD_DEFS = ["", "{not json", "[1, 2]", None]
 TYPED_BAD_DEFS = [7, {"StartAt": "P", "States": {"P": {"Type": "Pass", "End": True}}}, ["x"]]
 LOGGING = [None, None, {"level": "OFF"}, {"level": "ALL", "destinations": [{"cloudWatchLogsLogGroup": {"logGroupArn": "x"}}],
                                          "includeExecutionData": True}, {"level": "ERROR", "destinations": [{}]}]
-BAD_LOGGING = [{"level": "LOUD"}, {"level": "ERROR"}, {"level": "ALL", "destinations": []}, {"level": "FATAL", "destinations": [{}, {}]}]
+BAD_LOGGING = [{"level": "LOUD"}, {"level": "ERROR"}, {"level": "ALL", "destinations": []}, {"level": "FATAL", "destinations": [{}, {}]},
+               # wrong JSON types
+               "ALL", 7, ["ALL"], {"level": ["ALL"]}, {"level": {"x": 1}}, {"level": 3}, {"level": "ALL", "destinations": "x"},
+               {"level": "ALL", "destinations": {"a": 1}}, "__null__"]
 INPUTS = ['{"a": 1}', '{}', '[1, 2, 3]', '"text"', '{"nested": {"k": [true, null]}}']
 BAD_INPUTS = ["{bad", "", 5]
 FILTERS = [None, None, "RUNNING", "SUCCEEDED", "FAILED", "TIMED_OUT", "ABORTED"]
+BAD_FILTERS = [["FAILED"], {"a": 1}, 5, "running", "DONE", ""]
 
 
 def sm_arn(name, account="0123456789", region="local"):
@@ -125,7 +129,7 @@ def gen_ops(rng, n, front_end="asyncio", p_invalid=0.3, typed=True, bodies=True)
                 if v is None:
                     p.pop(k, None)
                 else:
-                    p[k] = v
+                    p[k] = None if v == "__null__" else v
             ops.append({"action": "CreateStateMachine", "params": p})
         elif r < 0.32:
             p = {"stateMachineArn": pick_sm_arn(inv)}
@@ -162,7 +166,8 @@ def gen_ops(rng, n, front_end="asyncio", p_invalid=0.3, typed=True, bodies=True)
                     p["definition"] = "{not json"
                 else:
                     p["roleArn"] = rng.choice(ROLES)
-                    p["loggingConfiguration"] = rng.choice(BAD_LOGGING)
+                    v = rng.choice(BAD_LOGGING)
+                    p["loggingConfiguration"] = None if v == "__null__" else v
             ops.append({"action": "UpdateStateMachine", "params": p})
         elif r < 0.57:
             p = {"stateMachineArn": pick_sm_arn(inv)}
@@ -207,6 +212,8 @@ def gen_ops(rng, n, front_end="asyncio", p_invalid=0.3, typed=True, bodies=True)
             f = rng.choice(FILTERS)
             if f:
                 p["statusFilter"] = f
+            if typed and rng.random() < 0.08:
+                p["statusFilter"] = rng.choice(BAD_FILTERS)
             ops.append({"action": "ListExecutions", "params": p})
         else:
             p = {"executionArn": pick_ex_arn(inv)}
